@@ -81,7 +81,7 @@ class Exec:
         case = chainexec.gen_case(random.Random(init["hist_seed"]), tuple(init["cfg"]), init["n_blocks"], 0.0, ["C01"], p_tx=0.6, p_fork=0.35)
         self.run = chainexec.Run(case, ("C13",))
         self.run.execute()
-        if self.run.harness:
+        if self.run.degenerate():
             raise env.HarnessError(self.run.harness[0])
         self.world = self.run.world
         self.led = self.world.uni
